@@ -560,6 +560,18 @@ def run_gen(it):
     return show_packets(ps) + " end"
 
 
+# The documented defaults of the packet functions (Cobalt Strike's fixed IV, no HMAC key, verification ON).  They are part of what
+# a caller relies on: in half of the cases an argument that EQUALS its documented default is left out of the call.
+DOC_DEFAULTS = {"iv": b"abcdefghijklmnop", "hmac_key": None, "verify": True}
+
+
+def _defaults(line, **named):
+    import zlib
+    if zlib.crc32(line.encode()) % 2:
+        return named
+    return {k: v for k, v in named.items() if not (k in DOC_DEFAULTS and v == DOC_DEFAULTS[k] and type(v) is type(DOC_DEFAULTS[k]))}
+
+
 def impl(stream, line):
     w = line.split()
     if stream == "g-padto":
@@ -588,14 +600,17 @@ def impl(stream, line):
         return traced(lambda: p.raise_for_signature(hk), lambda r: "None" if r is None else repr(r), ("?", None))
     if stream == "enc":
         pt, ak, hk, iv = C.unhx(w[1]), unopt(w[2]), unopt(w[3]), C.unhx(w[4])
-        return traced(lambda: c2.encrypt_packet(pt, ak, hk, iv), lambda p: f"{C.hx(p.ciphertext)} {C.hx(p.signature)}", ("E", own_pad(pt)))
+        kw = _defaults(line, iv=iv)
+        return traced(lambda: c2.encrypt_packet(pt, ak, hk, **kw), lambda p: f"{C.hx(p.ciphertext)} {C.hx(p.signature)}", ("E", own_pad(pt)))
     if stream == "dec":
         p = c2.EncryptedPacket(C.unhx(w[1]), C.unhx(w[2]))
         ak, hk, iv, verify = unopt(w[3]), unopt(w[4]), C.unhx(w[5]), w[6] == "T"
-        return traced(lambda: c2.decrypt_packet(p, ak, hk, iv, verify), C.hx, ("D", p.ciphertext))
+        kw = _defaults(line, hmac_key=hk, iv=iv, verify=verify)
+        return traced(lambda: c2.decrypt_packet(p, ak, **kw), C.hx, ("D", p.ciphertext))
     if stream == "rt":
         pt, ak, hk, iv, verify = C.unhx(w[1]), unopt(w[2]), unopt(w[3]), C.unhx(w[4]), w[5] == "T"
-        return traced(lambda: c2.decrypt_packet(c2.encrypt_packet(pt, ak, hk, iv), ak, hk, iv, verify), C.hx, ("E", own_pad(pt)))
+        kw = _defaults(line, hmac_key=hk, iv=iv, verify=verify)
+        return traced(lambda: c2.decrypt_packet(c2.encrypt_packet(pt, ak, hk, **_defaults(line, iv=iv)), ak, **kw), C.hx, ("E", own_pad(pt)))
     if stream == "p32be":
         return "ok " + C.hx(utils.p32be(int(w[1])))
     if stream == "dumps":
